@@ -39,6 +39,9 @@ def main():
             if modname not in handlers:
                 handlers[modname] = importlib.import_module("vlib.wk." + modname)
             resp = handlers[modname].handle(req)
+        except (SystemError, MemoryError) as ex:
+            # the interpreter reports internal corruption: equivalent to a crash of the code under test
+            resp = {"corrupted": "%s: %s" % (type(ex).__name__, ex), "traceback": traceback.format_exc()[-1500:]}
         except BaseException:
             resp = {"harness_error": traceback.format_exc()[-3000:]}
         out.write(json.dumps(resp, default=repr) + "\n")
